@@ -665,7 +665,8 @@ class SourceFinder(object):
 
         # check to see if this island is a negative peak since we need to
         # treat such cases slightly differently
-        isnegative = np.nanmax(data[np.isfinite(data)]) < 0
+        # the sign of the brightest (in absolute value) pixel decides
+        isnegative = -np.nanmin(data) > np.nanmax(data)
         if isnegative:
             self.log.debug("[is a negative island]")
 
@@ -1106,7 +1107,7 @@ class SourceFinder(object):
             source.components = j + 1
             source.peak_flux = np.nanmax(kappa_sigma)
             # check for negative islands
-            if source.peak_flux < 0:
+            if -np.nanmin(kappa_sigma) > source.peak_flux:
                 source.peak_flux = np.nanmin(kappa_sigma)
             self.log.debug("- peak flux {0}".format(source.peak_flux))
 
